@@ -22,7 +22,7 @@ CLAIMED = {
  "C11": ("trace validation of recorded text against Render.tla (per-type templates instantiated with the contract's decoded values, branch conditions explicit; float tokens compared numerically; printed heading checked with fixed-point trig) by TLC", "7/C11"),
  "C16": ("TLC model checking of MC_Feed (line loop over a segmented byte stream with short/long gaps; invariants NoCrash, ExactlyOnceInOrder, AllProcessed) + schedules of the bounded model, malformed-line feeds and disconnect/reconnect runs executed against the real 1090 and radar (pty + guarded hook), judged by Trace_Feed; TLC model checking of MC_RadarSession (client lifecycle: safety and liveness under weak fairness) and trace validation of every radar run's hook events against it (Trace_Session)", "7/C16"),
  "C17": ("TLC model checking of MC_RadarUI (handler tables, selection clamp at draw, bursts between draws, arrivals/expiry; invariants NoPanic, SelectionShown, property ViewOnly) + behaviours of the bounded model and random operator sessions driven through the real radar in a pty, hook events and session outcome judged by Trace_UI; TLC model checking of MC_RadarSession (lifecycle: TerminalRestored, LeftForAReason, liveness QuitLeadsToExit under weak fairness) with every session's event order validated against it (Trace_Session); CLI grid", "7/C17"),
- "C18": ("trace validation of reconstructed screens (terminal model at hook frame markers) paired with the hook's per-aircraft data against Trace_Screen (titles, Airplanes rows, Stats totals tracked through the trace, Map label placement by the linear longitude scale, data unchanged by view actions) by TLC; MC_RadarUI property ViewOnly", "7/C18"),
+ "C18": ("trace validation of reconstructed screens (terminal model at hook frame markers) paired with the hook's per-aircraft data against Trace_Screen (titles, Airplanes rows, Stats totals tracked through the trace, Map label and named-place placement by the linear longitude scale, data unchanged by view actions) by TLC; MC_RadarUI property ViewOnly", "7/C18"),
 }
 NOT_YET = {}
 import subprocess
@@ -45,7 +45,7 @@ TEXT = {
  "C15": "MC_Tracker PruneRemovesExactly / ReaddedIsFresh; recorded histories with integer clock ticks (guarded hook verif_backdate moves every timestamp) and prune(T), T in 0..120, judged by Trace_Tracker against the spec's own clock; histories that took >= 0.9 s of wall time are repeated, never judged.",
  "C16": "MC_Feed (TLC) checks NoCrash / ExactlyOnceInOrder / AllProcessed and, under weak fairness, EventuallyAllProcessed over every segmentation (<= 4 segments) and gap assignment of small feeds; TLAPS proves NoCrash for all streams and schedules (thorough). Schedules of the model, malformed-line and split-invalid feeds, --limit-parsing, disconnect and reconnect runs are executed against the real 1090 and radar over loopback TCP and judged by Trace_Feed. MC_RadarSession (TLC, with fairness) checks that a closed feed leads to exit, or with --retry-tcp to a reconnect that keeps the tracked aircraft; each radar run's hook events must be a behaviour of that machine (Trace_Session: connected before any line, disconnect_keys, retry_lost_aircraft).",
  "C17": "MC_RadarUI (TLC) checks NoPanic / SelectionShown over keys, mouse events, arrivals/expiry and bursts between draws; behaviours of the model and seeded random operator sessions (terminal sizes down to 1x1, SGR mouse, resizes, raw junk), quitting while waiting for a (re)connection, and a grid of malformed option values are run against the real radar in a pty; exit status, termios, DEC modes and panics judged by Trace_UI; every logged step is explained by the handler tables (drift = 0). MC_RadarSession (TLC) checks the lifecycle - terminal as found whenever the process has ended, the loop only left for a reason, a quit request leads to exit (liveness under weak fairness) - and Trace_Session accepts a session only if its hook events, in order, are a behaviour of that machine (sessions with server closes, reconnects, quitting in every state).",
- "C18": "Screens reconstructed by a terminal model at the hook's frame markers are paired with the hook's per-aircraft data and judged by Trace_Screen: title counts, every Airplanes row (address, callsign, lat, lon, altitude, distance, messages), Stats totals tracked through the trace, Map label column by the linear longitude scale (+-1) and row by linearised Mercator (+-2), distances measured from the receiver whatever the view, data unchanged by view actions; MC_RadarUI ViewOnly / StatsOK.",
+ "C18": "Screens reconstructed by a terminal model at the hook's frame markers are paired with the hook's per-aircraft data and judged by Trace_Screen: title counts, every Airplanes row (address, callsign, lat, lon, altitude, distance, messages), Stats totals tracked through the trace, Map label column by the linear longitude scale (+-1) and row by linearised Mercator (+-2), named places (--locations, --airports) likewise on Map and Coverage, distances measured from the receiver whatever the view, data unchanged by view actions; MC_RadarUI ViewOnly / StatsOK.",
  "C19": "MC_Reader (TLC) explores every schedule with <= 1/2 short reads and <= 1/2 Interrupted errors of the read/seek programs of 40 frame shapes (taken from reference runs of the real decoder) and checks the checksum-window invariants and termination (liveness under weak fairness); every model schedule, random schedules, frames behind a prefix and back-to-back frames are replayed through a scripted Read+Seek and judged by Trace_Reader (result equals the slice decode; decoding is pure).",
  "C20": "The recorder is built twice (std+serde, alloc-only); both run the same decode / pairing / tracker inputs and Trace_Config requires the projections (and texts) to be identical; every decoded frame and tracker states inside histories are sent through serde_json and back and re-projected.",
 }
